@@ -580,3 +580,45 @@ Definition py_method_set_is_macro (v : bool) (m : method) : method :=
 Definition py_method_extend_params (ps' : list str) (m : method) : method :=
   {| m_name := m_name m; m_doc := m_doc m; m_parent := m_parent m; m_types := m_types m;
      m_params := m_params m ++ ps'; m_ctor := m_ctor m; m_macro := m_macro m; m_docd := m_docd m |}.
+
+(* ------------------------------------------------------------------ *)
+(* batch 5: the rendering loop (ClassDocumentation.process, the dynamic dispatch, process_docs) *)
+
+(* Python:   w.title = t   for an RSTWriter / Directive w (the property setter): one more step of the
+   writer state machine *)
+Definition py_w_set_title (world : wstate) (w : handle) (t : str) : wstate :=
+  fst (wstep [] world (OSetTitle w t)).
+
+(* Python:   c.name   for an inner class c held in a class entry.  Model.DocTypes.EClass keeps the NAMES of
+   the inner classes (py_entry_add_inner_class), so the element is the name; the translator rejects every
+   other attribute of such an element. *)
+Definition py_inner_class_name (c : str) : str := c.
+
+(* Python:   for v in xs: BODY     where xs is a list of documentation objects and BODY calls the dynamically
+   dispatched method v.m(w).  Such a method may assign fields of its object (so BODY yields, beside the new
+   state, the object v after the call, and the loop yields the list of the objects after their calls -- the
+   objects of such a list are distinct, as everywhere in this translation) and may raise (None; the loop
+   then raises as well and nothing after it runs). *)
+Fixpoint py_for_obj_raise {St A : Type} (xs : list A) (body : St -> A -> option (St * A)) (init : St)
+  : option (St * list A) :=
+  match xs with
+  | [] => Some (init, [])
+  | x :: r =>
+      match body init x with
+      | None => None
+      | Some (st, x') =>
+          match py_for_obj_raise r body st with
+          | None => None
+          | Some (st', r') => Some (st', x' :: r')
+          end
+      end
+  end.
+
+(* ---- batch 5, part 3: the glue of Documenter ---- *)
+(* Python:   self.writer = RSTWriter(title, settings=settings)   (section_level and indent keep their defaults 0)
+   The function creates the RST document; the new object is its top-level writer.  RSTWriter.__init__ raises
+   IndexError when the heading characters chosen by the settings are an empty list; that case is outside this
+   combinator (Proofs/WriterSourceMatch.v: RSTWriter_new_matches gives None there, init_matches assumes a
+   non-empty list and gives exactly winit). *)
+Definition py_w_new (title : str) : wstate := winit title.
+Definition py_w_top : handle := [].
